@@ -284,6 +284,8 @@ fn signed_case() -> BoxedStrategy<Case> {
                 if with_use { j["use"] = json!(usage); j["key_ops"] = json!(["verify", "sign"]); j["kid"] = json!("k1"); }
                 Some(json!({"jwk": j}))
             }),
+        2 => Just(Some(json!({"jwk": {"kty":"RSA","n":"zq8z7ZiJ_3uxqesadYwmK3SFnfcLBF9FB_-JUFNLViqBARrsBl8Ekpgn6TDmYu80L4K39WuA_kEXFExmOR4N__c9Z8w455m9WOMNjDS3btSqQR03IeMfkUE76poOzbNZ1yl_KOuiWidL2uePqCgCf5kqzVXC1Iszm_CtQrvuZrdNxQcwDgxdOkOdDv75LmZoMIOU5O_T8bC_fyO4vUEF3VZ6KC-FPxCm857u09MNRA4sGb7wwoRf-E0_8k0Ig_WCwhEXXbT14UFCij3sEA30PhPYtpovFm02kZBU_1BGKle93UgWvMuJihInS27VvHQ0ZRgnxZh3zRf-WudCuisG7Q","e":"AQAB"}}))),
+        1 => Just(Some(json!({"jwk": {"kty":"oct","k":"c2VjcmV0LXNlY3JldC1zZWNyZXQtc2VjcmV0"}}))),
         1 => Just(Some(json!({"jwk": 5}))),
         1 => Just(Some(json!({"jwk": {}}))),
         1 => Just(Some(json!({"jwk": {"kty": "EC"}}))),
